@@ -23,7 +23,7 @@ META = {
     "deciding": ["post:_t_test_ndarray", "post:_w_test_ndarray", "post:matrix_binary_t_test", "e2e:paired_t_test", "e2e:w_test", "e2e:binary_paired_t_test",
                  "metamorphic:swap", "post:target_event_rates"],
 }
-META["added"] = "Added: forecasts re-scaled earlier with scale=True, equal-rate event bins with different totals, events far above the last magnitude edge, history 'evaluate, filter the same catalog in place, evaluate again with the same forecast objects', shared object histories / layouts from gridcases. catalogs whose own region is not the forecasts' grid."
+META["added"] = "Added: forecasts re-scaled earlier with scale=True, equal-rate event bins with different totals, events far above the last magnitude edge, history 'evaluate, filter the same catalog in place, evaluate again with the same forecast objects', shared object histories / layouts from gridcases. catalogs whose own region is not the forecasts' grid. single-precision magnitude columns."
 MANIFEST = {
     "technique": "runtime post-conditions on the real T/W primitives and on target_event_rates/get_rates vs an independent implementation of Rhoades et al. Eq. 17/18 and a tie-corrected signed-rank oracle; boundary recorder on the three public tests incl. exceptions; swap / self-comparison metamorphic checks",
     "level_text": "Each generated forecast pair and catalog is run through the three public tests (both orders, self comparison); information gain, variance-derived t statistic, critical value, interval, signed-rank z and p are compared with independent formulas, per-event target rates with the reference cell/bin rates, and swap antisymmetry / symmetry is checked; any exception on an in-domain input is a violation.",
